@@ -14,6 +14,8 @@ Protocol (state: the current annotated sequence `cur`, optionally a copy `cp`):
   revcomp k                              cur = cur.reverse_complement(k) -> ok <start> <letters> <annot>
   copy                                   cp = cur.copy()               -> ok True|False   (cp == cur)
   cp_setint p c | cp_addfeat <feature> | cp_setf <feature> <letters>   mutate the copy
+  mut_qual v | cp_mut_qual v             edit the dict handed out by feature.qual of every feature of cur / cp (no effect)
+  mut_features | cp_mut_features         clear annotation.get_features() and try to clear feature.locs (no effect)
 """
 import ast
 import os
@@ -137,6 +139,69 @@ def gen_lean():
     # parameter -> field it is stored in
     param_field = {src: f for f, src in init_fields}
     copy_table = [(param_field.get(p, "?"), attr, k) for p, attr, k in args]
+    # --- accessors: properties / get_* methods that hand out an attribute of self, and how each attribute is built
+    def field_kind(v):
+        """frozen: frozenset(...); mutable: set/dict/list (calls, literals, deepcopy of a parameter); param: a bare parameter."""
+        if isinstance(v, ast.IfExp):
+            ks = {field_kind(v.body), field_kind(v.orelse)}
+            return "mutable" if "mutable" in ks else ks.pop() if len(ks) == 1 else "mutable"
+        if isinstance(v, ast.Call):
+            fn = v.func.id if isinstance(v.func, ast.Name) else v.func.attr if isinstance(v.func, ast.Attribute) else "?"
+            if fn in ("frozenset", "tuple", "str", "int"):
+                return "frozen"
+            return "mutable"      # set(), dict(), list(), copy.deepcopy(), np.array(), anything unknown
+        if isinstance(v, (ast.Dict, ast.List, ast.Set, ast.ListComp, ast.DictComp, ast.SetComp)):
+            return "mutable"
+        if isinstance(v, ast.Name):
+            return "param"
+        if isinstance(v, ast.Constant):
+            return "frozen"
+        return "mutable"
+
+    def self_attr(x):
+        return x.attr if isinstance(x, ast.Attribute) and isinstance(x.value, ast.Name) and x.value.id == "self" else None
+
+    field_kinds, accessors = [], []
+    for cname, cls in (("Location", loc), ("Feature", _class(ann, "Feature")), ("Annotation", _class(ann, "Annotation")),
+                       ("AnnotatedSequence", aseq)):
+        kinds = {}
+        for n in ast.walk(_func(cls, "__init__")):
+            if isinstance(n, ast.Assign):
+                for t in n.targets:
+                    if self_attr(t):
+                        k = field_kind(n.value)
+                        kinds[t.attr] = "mutable" if kinds.get(t.attr, k) != k else k
+        if not kinds:
+            raise ValueError(f"{cname}.__init__ assigns no attribute")
+        field_kinds += [(cname, a, k) for a, k in kinds.items()]
+        for fn in cls.body:
+            if not isinstance(fn, ast.FunctionDef) or fn.name.startswith("__"):
+                continue
+            is_prop = any(getattr(d, "id", None) == "property" for d in fn.decorator_list)
+            if not (is_prop or fn.name.startswith("get_")):
+                continue
+            rets = [r for r in ast.walk(fn) if isinstance(r, ast.Return) and r.value is not None]
+            if len(rets) != 1:
+                continue
+            v = rets[0].value
+            if self_attr(v):
+                accessors.append((cname, fn.name, v.attr, "plain"))
+            elif isinstance(v, ast.Call) and isinstance(v.func, ast.Attribute) and len(v.args) == 1 and not v.keywords \
+                    and self_attr(v.args[0]) and getattr(v.func.value, "id", None) == "copy" and v.func.attr in ("copy", "deepcopy"):
+                accessors.append((cname, fn.name, v.args[0].attr, "copy"))
+            elif isinstance(v, ast.Call) and isinstance(v.func, ast.Attribute) and v.func.attr == "copy" and not v.args \
+                    and self_attr(v.func.value):
+                accessors.append((cname, fn.name, v.func.value.attr, "copy"))
+            # anything else is a computed value (e.g. get_location_range): hands out no internal object
+    for need in (("Feature", "qual"), ("Feature", "locs"), ("Annotation", "get_features")):
+        if not any((c, a) == need for c, a, _, _ in accessors):
+            raise ValueError(f"accessor {need[0]}.{need[1]} not found in the expected shape (return self._x | copy.copy(self._x))")
+    # Annotation.copy() must build a new set: `Annotation(self._features)` relies on `set(features)` in __init__
+    acc = _func(_class(ann, "Annotation"), "__copy_create__")
+    aret = [n for n in ast.walk(acc) if isinstance(n, ast.Return)]
+    if len(aret) != 1 or not isinstance(aret[0].value, ast.Call) or getattr(aret[0].value.func, "id", None) != "Annotation" \
+            or len(aret[0].value.args) != 1 or self_attr(aret[0].value.args[0]) != "_features":
+        raise ValueError("Annotation.__copy_create__: expected `return Annotation(self._features)`")
     # --- nucleotide alphabets and complement (seqtypes.py)
     st = ast.parse(_src("sequence/seqtypes.py"))
     nuc = _class(st, "NucleotideSequence")
@@ -169,6 +234,10 @@ def gen_lean():
         "def initFields : List String := " + _lean_str_list([f for f, _ in init_fields]),
         "/-- `__copy_create__`: (field the constructor argument is stored in, attribute of `self` it is built from, how). -/",
         "def copyCreate : List (String × String × String) := [" + ", ".join(f'("{a}", "{b}", "{c}")' for a, b, c in copy_table) + "]",
+        "/-- How `__init__` builds each attribute: frozen (frozenset/str/…), mutable (set/dict/list/deepcopy/…), param (stored as given). -/",
+        "def fieldKinds : List (String × String × String) := [" + ", ".join(f'("{a}", "{b}", "{c}")' for a, b, c in field_kinds) + "]",
+        "/-- Properties and `get_*` methods that hand out an attribute: (class, accessor, attribute, plain | copy). -/",
+        "def accessors : List (String × String × String × String) := [" + ", ".join(f'("{a}", "{b}", "{c}", "{d}")' for a, b, c, d in accessors) + "]",
         "/-- `NucleotideSequence.alphabet_unamb` / `alphabet_amb`. -/",
         'def alphabetUnamb : String := "' + "".join(consts["alphabet_unamb"]) + '"',
         'def alphabetAmb : String := "' + "".join(amb) + '"',
@@ -313,6 +382,19 @@ class World:
             if w[0] == "cp_setint":
                 self.cp[int(w[1])] = w[2]
                 return "ok"
+            if w[0] in ("mut_qual", "cp_mut_qual"):
+                # edit the dictionaries handed out by Feature.qual (an accessor result, never the feature itself)
+                for f in list((self.cur if w[0] == "mut_qual" else self.cp).annotation):
+                    d = f.qual
+                    d["q"] = w[1]
+                    d["extra"] = "1"
+                return "ok"
+            if w[0] in ("mut_features", "cp_mut_features"):
+                tgt = self.cur if w[0] == "mut_features" else self.cp
+                tgt.annotation.get_features().clear()
+                for f in list(tgt.annotation):
+                    _try(lambda: f.locs.clear())
+                return "ok"
             if w[0] == "cp_addfeat":
                 self.cp.annotation.add_feature(_mk_feat(_parse_feat(w[1])))
                 return "ok"
@@ -367,6 +449,123 @@ def _explain(got, exp):
 
 def _revcomp_str(s):
     return "".join(COMP[c] for c in reversed(s))
+
+
+def _deep(x):
+    """Everything observable of an annotated sequence / annotation / feature through the public API, as plain data."""
+    def feat(f):
+        return (str(f.key), tuple(sorted((str(k), str(val)) for k, val in f.qual.items())), tuple(sorted(_loc_t(l) for l in f.locs)))
+    if hasattr(x, "sequence_start"):
+        return (int(x.sequence_start), str(x.sequence), tuple(int(c) for c in x.sequence.code), _deep(x.annotation))
+    if hasattr(x, "get_features"):
+        return tuple(sorted(feat(f) for f in x))
+    return feat(x)
+
+
+def _try(fn):
+    """An attempted mutation: being refused (immutable object) is fine."""
+    try:
+        fn()
+    except (AttributeError, TypeError, KeyError, ValueError):
+        pass
+
+
+def _accessor_probes(start, letters):
+    """Mutations through EVERY accessor that hands out an object, applied to an annotated sequence `x`."""
+    other = "A" if (letters[:1] != "A") else "C"
+
+    def qual(x):
+        for f in list(x.annotation):
+            d = f.qual
+            _try(lambda: d.__setitem__("q", "9"))
+            _try(lambda: d.__setitem__("extra", "1"))
+            _try(lambda: d.clear())
+
+    def locs(x):
+        for f in list(x.annotation):
+            ls = f.locs
+            _try(lambda: ls.clear())
+            _try(lambda: ls.add(_mk_loc((start, start, "+", 0))))
+            _try(lambda: setattr(next(iter(f.locs)), "first", 0))
+
+    def get_features(x):
+        g = x.annotation.get_features()
+        _try(lambda: g.add(_mk_feat((98, 98, [(start, start, "+", 0)]))))
+        _try(lambda: g.clear())
+
+    probes = [("feature-qual", qual), ("feature-locs", locs), ("annotation-get_features", get_features),
+              ("annotation", lambda x: x.annotation.add_feature(_mk_feat((99, 99, [(start, start, "+", 0)]))))]
+    if letters:
+        probes += [("sequence", lambda x: x.sequence.__setitem__(0, other)),
+                   ("sequence-via-setitem", lambda x: x.__setitem__(start, other)),
+                   ("sequence-code", lambda x: x.sequence.code.__setitem__(0, LETTERS.index(other)))]
+    return probes
+
+
+def _copy_independence(start, letters, annot):
+    """copy() of AnnotatedSequence / Annotation / Feature: equal to the original, and a mutation through any accessor on
+    one side leaves the other side equal to the snapshot taken before; accessors that hand out copies leave BOTH sides
+    unchanged; afterwards `feature in annotation` and `del_feature` still work."""
+    v = []
+    legit = ("annotation", "sequence", "sequence-via-setitem", "sequence-code")   # documented in-place edits of ONE object
+    for name, mut in _accessor_probes(start, letters):
+        for side in ("copy", "original"):
+            o = _mk_aseq(start, letters or "_", annot)
+            snap = _deep(o)
+            c = o.copy()
+            if _deep(c) != snap or not (c == o):
+                return [("C13/copy/unequal", f"copy of {snap} is {_deep(c)}")]
+            target, other = (c, o) if side == "copy" else (o, c)
+            try:
+                mut(target)
+            except Exception as e:  # noqa: BLE001
+                v.append((f"C13/copy/probe-{name}-raises", f"{type(e).__name__}: {e}"))
+                continue
+            if _deep(other) != snap:
+                v.append((f"C13/copy/shared-{name}", f"mutating the {side}'s {name} changed the other object: {snap} -> {_deep(other)}"))
+            elif name not in legit and _deep(target) != snap:
+                v.append((f"C13/accessor/{name}-exposes-internal", f"editing the object handed out by {name} changed the {side} itself: {snap} -> {_deep(target)}"))
+            for x, nm in ((o, "original"), (c, "copy")):
+                try:
+                    fs = list(x.annotation)
+                    if not all(f in x.annotation for f in fs):
+                        v.append((f"C13/copy/membership-after-{name}", f"a feature of the {nm} is no longer `in` its annotation"))
+                    tmp = x.annotation.copy()
+                    for f in fs:
+                        tmp.del_feature(f)
+                    if len(tmp) != 0:
+                        v.append((f"C13/copy/del_feature-after-{name}", f"del_feature left {len(tmp)} features"))
+                except Exception as e:  # noqa: BLE001
+                    v.append((f"C13/copy/del_feature-after-{name}", f"{nm}: {type(e).__name__}: {e}"))
+            if not (_mk_aseq(start, letters or "_", annot) == (other)):
+                v.append((f"C13/copy/shared-{name}", f"the untouched {('original' if side == 'copy' else 'copy')} differs from an identically built object"))
+    # Annotation.copy() and Feature.copy() on their own
+    o = _mk_aseq(start, letters or "_", annot)
+    snap = _deep(o.annotation)
+    a2 = o.annotation.copy()
+    if _deep(a2) != snap or not (a2 == o.annotation):
+        v.append(("C13/copy/annotation-unequal", f"Annotation.copy() of {snap} is {_deep(a2)}"))
+    a2.add_feature(_mk_feat((97, 97, [(start, start, "-", 0)])))
+    for f in list(a2):
+        d = f.qual
+        _try(lambda: d.__setitem__("q", "8"))
+    if _deep(o.annotation) != snap:
+        v.append(("C13/copy/annotation-shared", f"mutating Annotation.copy() changed the original: {snap} -> {_deep(o.annotation)}"))
+    for f in list(o.annotation):
+        fs = _deep(f)
+        try:
+            fc = f.copy()
+        except Exception as e:  # noqa: BLE001
+            v.append(("C13/copy/feature-copy-raises", f"Feature.copy() raised {type(e).__name__}: {e}"))
+            break
+        if _deep(fc) != fs or not (fc == f) or hash(fc) != hash(f):
+            v.append(("C13/copy/feature-unequal", f"Feature.copy() of {fs} is {_deep(fc)}"))
+        d = fc.qual
+        _try(lambda: d.__setitem__("q", "7"))
+        _try(lambda: fc.locs.clear())
+        if _deep(f) != fs or _deep(fc) != fs:
+            v.append(("C13/copy/feature-shared", f"editing accessor results of Feature.copy() changed a feature: {fs} -> {_deep(f)} / {_deep(fc)}"))
+    return v
 
 
 def oracle(case):
@@ -516,24 +715,7 @@ def oracle(case):
                     not_seq = False
                 v.append(("C13/copy/sequence-not-copied" if not_seq else "C13/copy/unequal", f"copy of {before}: {why}"))
             else:
-                # independence, both directions, sequence and annotation
-                probes = []
-                if n:
-                    probes.append(("sequence", lambda x: x.sequence.__setitem__(0, "A" if letters[0] != "A" else "C")))
-                    probes.append(("sequence-via-setitem", lambda x: x.__setitem__(start, "A" if letters[0] != "A" else "C")))
-                probes.append(("annotation", lambda x: x.annotation.add_feature(_mk_feat((99, 99, [(start, start, "+", 0)])))))
-                for name, mut in probes:
-                    c = w.cur.copy()
-                    mut(c)
-                    if _canon_aseq(w.cur) != before:
-                        v.append((f"C13/copy/shared-{name.split('-')[0]}", f"mutating the copy's {name} changed the original {before}"))
-                        w.cur = _mk_aseq(start, letters or "_", annot)   # restore
-                    c = w.cur.copy()
-                    keep = _canon_aseq(c)
-                    mut(w.cur)
-                    if _canon_aseq(c) != keep:
-                        v.append((f"C13/copy/shared-{name.split('-')[0]}", f"mutating the original's {name} changed the copy {keep}"))
-                    w.cur = _mk_aseq(start, letters or "_", annot)
+                v += _copy_independence(start, letters, annot)
             w.step(op)
         else:
             w.step(op)      # show / cp_* : correspondence only
@@ -673,7 +855,8 @@ def _gen_copy(rng):
     f = (rng.randint(0, 3), rng.randint(3, 5), [_rand_loc(rng, start, start + n - 1)])
     locs = _disjoint_locs(rng, start, start + n - 1, "+", 2)
     total = sum(l - a + 1 for a, l, _, _ in locs)
-    ops = ["copy", f"cp_setint {p} {c}", "show", "cp_show", f"cp_addfeat {_feat_s(f)}",
+    ops = ["copy", f"cp_mut_qual {rng.randint(6, 9)}", "show", "cp_show", "mut_features", f"mut_qual {rng.randint(6, 9)}", "cp_mut_features",
+           "show", "cp_show", f"cp_setint {p} {c}", "show", "cp_show", f"cp_addfeat {_feat_s(f)}",
            f"cp_setf {_feat_s((0, 0, locs))} {''.join(rng.choice(alpha) for _ in range(total))}", "show", "cp_show"]
     return _case("copy", start, letters, annot, ops)
 
@@ -756,6 +939,9 @@ def corpus():
     return [
         # copy: `self._sequence.copy` was passed uncalled
         _case("copy", 1, "ACGTACGTAC", [(0, 0, [(1, 4, "+", 0), (7, 10, "+", 0)])], ["copy", "cp_setint 1 C", "show", "cp_show"]),
+        # accessor results are copies: editing them changes neither the copy nor the original
+        _case("copy", 1, "ACGT", [(0, 1, [(1, 2, "+", 0)]), (2, 0, [(3, 4, "-", 3)])],
+              ["copy", "cp_mut_qual 9", "show", "cp_show", "mut_features", "mut_qual 8", "show", "cp_show"]),
         # open stop with sequence start 1 (cut last base) and 5 (features dropped)
         _case("slice", 1, "ACGTACGTAC", [(0, 0, [(1, 4, "+", 0), (7, 10, "+", 0)])], ["slice 2 -", "slice - -"]),
         _case("slice", 5, "ACGTACGTAC", [(0, 0, [(5, 8, "+", 0), (11, 14, "+", 0)])], ["slice 6 -", "slice - -", "slice - 8"]),
